@@ -428,6 +428,200 @@ def baselines(env: _Env, ck=None):
     return base
 
 
+
+# --------------------------------------------------------------------------- settings seen THROUGH lazily constructed objects
+# A callable whose body spox runs later - a `to_function` function, a Function class, a subgraph callback, an
+# `inline` callback - is "code running" at the time of each CALL: what its body sees must be the settings in force
+# at that call, whether the object was created / first used inside a block and is used again after the block exit,
+# or the other way round. A setting captured at creation or first use and re-installed later (however balanced)
+# violates "affect only code running inside them ... the previously effective setting is back in force".
+CARRIER_KINDS = ["to_function", "function-class", "if-callback", "loop-callback", "inline", "vars-created-here", "plain-closure"]
+
+
+def probe_small(env: _Env):
+    """[warning level, backend, dispatch] as `behave` sees them (the three main probes)."""
+    return env.behave()[:3]
+
+
+def make_carrier(env: _Env, kind, tag):
+    """-> use(): list of behaviour snapshots taken by the body each time spox ran it during this use."""
+    import warnings
+
+    import numpy as np
+    from spox import Tensor, argument
+
+    op = env.op
+    seen = []
+
+    def body_probe():
+        seen.append(probe_small(env))
+
+    if kind == "to_function":
+        from spox._function import to_function
+
+        @to_function(f"C16Carrier{tag}", "c16.carrier")
+        def fn(x):
+            body_probe()
+            return [op.identity(x)]
+
+        def use():
+            fn(argument(Tensor(np.float32, (2,))))
+    elif kind == "function-class":
+        from spox._function import _make_function_cls
+
+        def ctor(x):
+            body_probe()
+            return [op.identity(x)]
+
+        cls = _make_function_cls(ctor, 1, 1, "c16.carrier", 0, f"C16Cls{tag}")
+
+        def use():
+            cls(cls.Attributes(), cls.Inputs(argument(Tensor(np.float32, (2,)))))
+    elif kind == "if-callback":
+        def then_():
+            body_probe()
+            return [op.const(np.float32(1.0))]
+
+        def else_():
+            body_probe()
+            return [op.const(np.float32(2.0))]
+
+        def use():
+            op.if_(argument(Tensor(np.bool_, ())), then_branch=then_, else_branch=else_)
+    elif kind == "loop-callback":
+        def loop_body(i, c, acc):
+            body_probe()
+            return [c, op.add(acc, acc)]
+
+        def use():
+            op.loop(argument(Tensor(np.int64, ())), v_initial=[argument(Tensor(np.float32, ()))], body=loop_body)
+    elif kind == "inline":
+        from onnx import TensorProto, helper
+
+        from spox import inline
+
+        g = helper.make_graph([helper.make_node("Cast", ["x"], ["y"], to=TensorProto.STRING)], "g",
+                              [helper.make_tensor_value_info("x", TensorProto.FLOAT, [])],
+                              [helper.make_tensor_value_info("y", TensorProto.STRING, [])])
+        call = inline(helper.make_model(g, opset_imports=[helper.make_opsetid("", 17)]))
+
+        def use():
+            # no user code runs; what an inlined model computes for a constant is decided by the backend in force
+            y = call(env.p_const)["y"]
+            val = getattr(y, "_value", None)
+            seen.append([None, "no-value" if val is None else str(val.value.tolist()), None])
+    elif kind == "vars-created-here":
+        # Vars (arguments, a constant) that come into being where the carrier is created - possibly inside a block -
+        # and are operated on later: what `a + b` / a warning-prone construction does is decided at the time of use
+        a, b, i64, unk = (argument(Tensor(np.float32, ())), argument(Tensor(np.float32, ())), argument(Tensor(np.int64, ())),
+                          argument(Tensor(np.float32)))
+
+        def use():
+            def disp(f):
+                try:
+                    r = f()
+                    return r.type.dtype.name if hasattr(r, "type") else type(r).__name__
+                except Exception as e:  # noqa: BLE001
+                    return type(e).__name__
+
+            with warnings.catch_warnings(record=True) as w:
+                warnings.simplefilter("always")
+                try:
+                    op.abs(unk)
+                    third = str(min(len(w), 1))
+                except Exception as e:  # noqa: BLE001
+                    third = "!" + type(e).__name__
+            direct_lvl = probe_small(env)[0]
+            seen.append([direct_lvl[:2] + third, None, "|".join([disp(lambda: a + b), disp(lambda: i64 + a), disp(lambda: a + 2.5)])])
+    else:  # a plain Python closure: the control (nothing of spox in between)
+        def use():
+            body_probe()
+
+    def run():
+        del seen[:]
+        with warnings.catch_warnings():
+            warnings.simplefilter("ignore")
+            use()
+        return [list(x) for x in seen]
+
+    return run
+
+
+def gen_carrier_scenario(rng: random.Random, k):
+    """blocks: a small forest over one or two settings; the carrier is created `create` = 'before' | 'first-body'
+    and used at every point (before the history if created before; on entering each body; after each exit)."""
+    which = k % 3
+    kind = CARRIER_KINDS[(k // 3) % len(CARRIER_KINDS)]
+    def arg(w, avoid=None):
+        vals = [v for v in range(1 if w == 2 else 0, N_ARGS[w] + (1 if w == 2 else 0)) if v != avoid]
+        return rng.choice(vals)
+    a1 = arg(which)
+    shape = rng.choice(["single", "nested-same", "successive", "nested-other"])
+    blk = lambda w, a, inner=(), raises=False: {"which": w, "arg": a, "inner": list(inner), "raises": raises}  # noqa: E731
+    if shape == "single":
+        blocks = [blk(which, a1, raises=rng.random() < 0.3)]
+    elif shape == "nested-same":
+        blocks = [blk(which, a1, [blk(which, arg(which, a1), raises=rng.random() < 0.3)])]
+    elif shape == "successive":
+        blocks = [blk(which, a1), blk(which, arg(which, a1))]
+    else:
+        o = (which + 1 + rng.randrange(2)) % 3
+        blocks = [blk(o, arg(o), [blk(which, a1)])]
+    init = [rng.randrange(4), rng.randrange(1, 3), 0]
+    if which == 2 and rng.random() < 0.5:
+        init[2] = arg(2, a1)
+    return {"kind": kind, "create": rng.choice(["before", "first-body", "first-body"]), "init": init, "blocks": blocks}
+
+
+def run_carrier_scenario(env: _Env, sc, tag=0):
+    """-> list of (point, settings read, direct behaviour, [behaviour seen by the carrier's body ...])"""
+    env.write(sc["init"])
+    out = []
+    carrier = [None]
+
+    def use(point):
+        if carrier[0] is None:
+            carrier[0] = make_carrier(env, sc["kind"], tag)
+        direct = probe_small(env)
+        out.append((point, env.read(), direct, carrier[0]()))
+
+    if sc["create"] == "before":
+        use("before any block")
+
+    def run_block(b, depth):
+        try:
+            with env.manager(b["which"], b["arg"]):
+                use(f"inside {MANAGERS[b['which']]}={b['arg']}")
+                for ib in b["inner"]:
+                    run_block(ib, depth + 1)
+                if b["inner"]:
+                    use(f"inside {MANAGERS[b['which']]}={b['arg']} after the inner block")
+                if b["raises"]:
+                    raise _Boom("body")
+        except _Boom:
+            pass
+        use(f"after {MANAGERS[b['which']]}={b['arg']}")
+
+    for b in sc["blocks"]:
+        run_block(b, 0)
+    return out
+
+
+def carrier_oracle(sc, records):
+    """Model-free: every time spox ran the carrier's body, the body saw the behaviour that code written directly at
+    the call site sees (the settings in force at the call)."""
+    bad = []
+    for point, glob, direct, seen in records:
+        for snap in seen:
+            for j in range(3):
+                if snap[j] is not None and snap[j] != direct[j]:
+                    bad.append((MANAGERS[j], f"stale-inside-{sc['kind']}",
+                                f"the body of a {sc['kind']} object used {point} behaves {snap[j]!r}; code at the call site behaves "
+                                f"{direct[j]!r} (settings {glob}; object created {sc['create']})"))
+                    break
+    return bad
+
+
 # --------------------------------------------------------------------------- settings as decorators on GENERATOR functions
 # Reading taken by the check (stated in design.d/C16.md): a manager used as a decorator wraps the CALL of the
 # decorated function. For a generator function that call only creates the generator, so the setting is in
@@ -743,6 +937,39 @@ def run(ck: core.Check):
         env.write(saved)
     ck.cov["behaviour"] = bstats
 
+    # ---------------------------------------------------------------- settings seen through lazily constructed objects
+    cstats = {"scenarios": 0, "uses": 0, "body_runs": 0, "kinds": {}, "not_observable": {}}
+    try:
+        if not hasattr(env, "p_const"):
+            env.prepare_probes()
+        n_car = ck.pick(63, 630)
+        for k in range(n_car):
+            sc = gen_carrier_scenario(rng, k)
+            try:
+                recs = run_carrier_scenario(env, sc, tag=k)
+            except Exception as e:  # noqa: BLE001
+                cstats["not_observable"].setdefault(sc["kind"], f"{type(e).__name__}: {e}"[:200])
+                continue
+            finally:
+                env.write(saved)
+            cstats["scenarios"] += 1
+            cstats["uses"] += len(recs)
+            cstats["body_runs"] += sum(len(r[3]) for r in recs)
+            cstats["kinds"][sc["kind"]] = cstats["kinds"].get(sc["kind"], 0) + 1
+            ck.count(("carrier", repr(sc)))
+            for mgr, kind, what in carrier_oracle(sc, recs):
+                ck.failure(f"{mgr}:{kind}", f"{mgr}: {what}", {"carrier": sc, "tag": k})
+        for kind_, why in cstats["not_observable"].items():
+            ck.broken("correspondence", f"C16 carrier {kind_} not observable", why)
+        if cstats["body_runs"] < cstats["scenarios"]:
+            ck.broken("generator", "C16 carrier scenarios starved", str(cstats))
+    except Exception as e:  # noqa: BLE001
+        ck.broken("correspondence", "C16 carrier scenarios not observable", f"{type(e).__name__}: {e}")
+    finally:
+        env.write(saved)
+    ck.cov["carriers"] = cstats
+
+
     ck.cov.update(
         {
             "correspondence_cases": len(cases),
@@ -771,6 +998,13 @@ def replay(ck: core.Check, doc) -> bool:
     saved = env.read()
     case = doc["case"]
     try:
+        if case.get("carrier"):
+            env.prepare_probes()
+            recs = run_carrier_scenario(env, case["carrier"], tag=case.get("tag", 0))
+            bad4 = carrier_oracle(case["carrier"], recs)
+            for m_, k_, w_ in bad4:
+                print(f"{m_}: {k_}: {w_}")
+            return bool(bad4)
         if case.get("generators"):
             final, _ = run_generator_scenario(env, case["generators"])
             bad3 = generator_oracle(case["generators"], final)
